@@ -10,6 +10,7 @@ site of running p2pkeswarm / quicswarm instances; TLC evaluates the laws on the 
 """
 import json
 import os
+import re
 import time
 
 from . import core, tlcretry
@@ -19,7 +20,7 @@ PROPERTIES = ["C17"]
 MANIFEST = {
     "C17": dict(level="exploration",
                 technique="TLA+ spec (Keys.tla) as exhaustive structured case generator + law oracle (peer-id text codec modelled exactly); cases run on the real x509 / fingerprinter / PeerID functions and on running swarms; observations evaluated by TLC (KeysTrace.tla)",
-                text="TLC enumerates keys (OID arc boundary classes x body lengths {0,1,31,32,33,64}), key pairs, non-canonical DER forms, peer-id text classes (wrong length, foreign characters, CR/LF/space, '=' padding, non-zero trailing bits) and id pairs, checks RoundTrip / EqualIffEncodingEqual / NonCanonical / RejectInvalid / OrderPreserving on the modelled codecs, and evaluates the same laws on what the real functions returned for seeded instances of every case; FingerprintIsFunctionOfKey is checked per swarm kind over direct calls and over ids observed at LocalAddrs / Src / Dst / LookupPublicKey / whitelist sites of running swarms.",
+                text="TLC enumerates keys (OID arc boundary classes, OIDs long enough to cross the 127/255-byte length forms, x body lengths {0,1,31,32,33,64,125..129,254..257,1312,65534..65536}), key pairs, non-canonical DER forms, peer-id text classes (wrong length, foreign characters, CR/LF/space, '=' padding, non-zero trailing bits) and id pairs, checks RoundTrip / CanonicalDER (definite minimal lengths; on the code: byte equality with encoding/asn1, a hand-written encoder and crypto/x509 reference encodings) / EqualIffEncodingEqual / NonCanonical / RejectInvalid / OrderPreserving on the modelled codecs, and evaluates the same laws on what the real functions returned for seeded instances of every case; FingerprintIsFunctionOfKey is checked per swarm kind over direct calls and over ids observed at LocalAddrs / Src / Dst / LookupPublicKey / whitelist sites of running swarms.",
                 note="Exploration: exhaustive over the class space, sampled (seeded) at byte level. The DER side is modelled at structure level. Integer tuples that are not object identifiers (fewer than two arcs, first arc > 2, negative arcs) are outside the quantifier. p2pkeswarm (SHAKE-256) and quicswarm (SHA3-256) fingerprints differ by construction: reported as an observation, not a violation.",
                 ref="5 (C17), 3.11, 9"),
 }
@@ -44,15 +45,41 @@ def generate(tier, stats):
         r2 = tlcretry.tlc("Keys", "Keys_orig.cfg", workers=2, timeout=300, label="keys-orig", short=True)
         if "RejectInvalidLaw" not in r2.violated:
             raise core.Inconclusive("self-test: Keys_orig.cfg (pinned UnmarshalText) does not violate RejectInvalidLaw")
-        stats["model_selftest"] = "pinned UnmarshalText (F17) violates RejectInvalidLaw in the model, as expected"
+        r3 = tlcretry.tlc("Keys", "Keys_fastpath.cfg", workers=2, timeout=300, label="keys-fastpath", short=True)
+        if not ({"RoundTripLaw", "CanonicalDERLaw"} & set(r3.violated)):
+            raise core.Inconclusive("self-test: Keys_fastpath.cfg (outer length assuming a 2-byte BIT STRING header) violates neither RoundTripLaw nor CanonicalDERLaw")
+        stats["model_selftest"] = ("pinned UnmarshalText (F17) violates RejectInvalidLaw and a length fast path that assumes a 2-byte "
+                                   "BIT STRING header violates RoundTripLaw/CanonicalDERLaw in the model, as expected")
     return cases
 
 
-def violation_key(op, e):
+def body_len(e):
+    m = re.search(r"/len(\d+)", e.get("class", ""))
+    return int(m.group(1)) if m else None
+
+
+def length_threshold(op, events, viol_lines):
+    """If the key cases failing `op` are exactly those whose body is at least some length m (every OID), the
+    culprit is the length form, not the OID: name it body>=m."""
+    bad = {ln for ln, ops in viol_lines if op in ops and events[ln - 1]["ev"] == "key"}
+    if not bad:
+        return None
+    m = min(body_len(events[ln - 1]) for ln in bad)
+    for i, e in enumerate(events):
+        if e["ev"] != "key" or not (e.get("valid") and e.get("fits")):
+            continue
+        if (body_len(e) >= m) != ((i + 1) in bad):
+            return None
+    return m
+
+
+def violation_key(op, e, thresholds=None):
     if op in KEYNAMES:
         return KEYNAMES[op]
     cls = e.get("class", "")
     if e["ev"] == "key":
+        if thresholds and thresholds.get(op) is not None:
+            return "C17:%s:body>=%d" % (op, thresholds[op])
         return "C17:%s:key/%s" % (op, cls.split("/")[0])
     if e["ev"] == "pair":
         return "C17:%s:pair/%s" % (op, "~".join(x.split("/")[0] for x in cls.split("~")))
@@ -115,6 +142,7 @@ def run_pipeline(tier, cases=None, harvest=True, seed=None, variants=None):
         events.append(dict(fp[-1], id="00" * 32, site="selftest"))
         selftest[len(events)] = "FingerprintIsFunctionOfKey"
     corrupt("RoundTrip", lambda e: e["ev"] == "key" and e["valid"] and e["fits"] and e["eqkey"], dict(eqkey=False))
+    corrupt("CanonicalDER", lambda e: e["ev"] == "key" and e.get("refok") and e.get("canon"), dict(canon=False))
     corrupt("EqualIffEncodingEqual", lambda e: e["ev"] == "pair" and e["valid"] and e["equal"], dict(enceq=False))
     corrupt("RejectInvalid", lambda e: e["ev"] == "idtext" and not e["err"], dict(back=[45] * 43, tb=[48] * 43))
     corrupt("OrderPreserving", lambda e: e["ev"] == "idpair" and e["cmp"] < 0, dict(cmp=1, cmpba=-1, lt=False))
@@ -125,6 +153,8 @@ def run_pipeline(tier, cases=None, harvest=True, seed=None, variants=None):
     res = tlcretry.validate_trace("KeysTrace", "KeysTrace.cfg", trace, nshards=1, timeout=1500)
     seen = set()
     violations = []
+    real = [(ln, ops) for _t, ln, _c, ops in res["viol"] if ln not in selftest]
+    thresholds = {op: length_threshold(op, events, real) for op in ("RoundTrip", "CanonicalDER")}
     for _tag, lineno, _c, ops in res["viol"]:
         if lineno in selftest:
             if selftest[lineno] in ops:
@@ -132,7 +162,7 @@ def run_pipeline(tier, cases=None, harvest=True, seed=None, variants=None):
             continue
         e = events[lineno - 1]
         for op in ops:
-            key = violation_key(op, e)
+            key = violation_key(op, e, thresholds)
             if e["ev"] == "fp":
                 prev = events[lineno - 2]
                 what = "%s false: swarm kind %s computes id %s at site %r and %s at site %r for the same key %s" % (
